@@ -49,7 +49,10 @@ where
                             break;
                         }
                         current[w].store(i, Ordering::Relaxed);
-                        f(i, &mut acc);
+                        // a panic of the harness itself is never a verdict
+                        if let Err(p) = crate::util::panics::catch(|| f(i, &mut acc)) {
+                            acc.inconclusive(format!("harness panicked in case {}: {}", i, p.0));
+                        }
                     }
                     current[w].store(u64::MAX, Ordering::Relaxed);
                     merged.lock().unwrap().merge(acc);
